@@ -22,14 +22,32 @@ ONE real directory path (feat/ vs feat_b/ of a SpectDataSet directory, file pref
 LangDataSet directory) with real loaders built one after the other in this process, and the recorded
 history (what was written, the real idx2bucket / bucket2size of every loader, feed / yield / stop
 events) must be accepted by BatchingDirTrace, which reads every loader's lengths off ITS OWN
-directory state: the length classes of a loader must be those of the data it serves."""
+directory state: the length classes of a loader must be those of the data it serves.
+
+Utterances without frames / tokens ((0, F) feature files with empty alignments, empty transcripts) are legal
+data: Batching.tla (Sources modifier "zero") assigns them to the lowest length class, BatchingCollate.tla
+(MinT = 0) keeps their row, size entry 0 and id (OneEntryPerUtterance, EmptyUtterancesStay).  The exported
+batches go through the three collation functions, the exported length vectors become real directories
+under ContextWindowDataLoader / SpectDataLoader / LangDataLoader.
+
+Under an initialised process group (BatchingDist.tla = C14's clauses over the job model DistLoader.tla of
+the extra check X03, reused): the exported sequential jobs (one loader per rank, W dividing the data or
+not, raise / drop / uneven / ignore, bucketed or not) are replayed on real loaders by X03's job runner
+under the FakeDist double - len(loader) asked before every epoch and the batches of every rank must be
+the specification's -, and seeded shuffled jobs are validated by BatchingDistTrace (TLC infers the epoch
+order).  The length of a rank's loader is that of ITS OWN share, and shares may be uneven."""
+import json
 import os
+import random
 import sys
+import threading
 
 import torch
 
+from .. import par
 from ..harness import MachineryError, main
 from . import _batching as B
+from . import _distloader as DL
 from . import _tracecheck
 
 PROP = "C14"
@@ -497,6 +515,242 @@ def random_flags(rng, kind):
     return cfg
 
 
+# ----------------------------------------------------------------------------- loaders of a distributed job
+# C14's clauses quantify over every loader, also over the W loaders of a torch.distributed job (BatchingDist.tla on top
+# of DistLoader.tla).  The real loaders are run by X03's job runner (_distloader.Job: one loader object per simulated rank
+# under the FakeDist double, len(loader) asked before every epoch, every pull / batch recorded), reused unchanged.
+def dist_describe(job):
+    return ("%s under an initialised process group: N=%d W=%d %s on_uneven_distributed=%s drop_last=%s batch_size=%d "
+            "num_length_buckets=%d lens=%r seed=%r" % (
+                DL.SITE[job["loader"]], job["N"], job["W"], "shuffled" if job["kind"] == "random" else "sequential",
+                job["lmode"], job["dropLast"], job["bsz"], job["nbreq"], job["lens"], job["seed"]))
+
+
+def dist_strip(job):
+    return dict((k, v) for k, v in job.items() if k not in ("dir", "root"))
+
+
+def dist_eff_mode(job):
+    """labelling only (the verdicts use the specification's EffModeOf)"""
+    return "ignore" if job["cls"] == "window" else ("drop" if job["dropLast"] else job["lmode"])
+
+
+def group_dist_cases(jobs):
+    """exported job records -> {case key: dict(c, refuses, acc[rank][epoch] = dict(fed, len, batches: [accepted lists]))}"""
+    out = {}
+    for r in jobs:
+        c = r["c"]
+        k = json.dumps(c, sort_keys=True)
+        g = out.get(k)
+        if g is None:
+            g = out[k] = dict(c=c, refuses=r["refuses"], acc=None)
+        if r["refuses"] != g["refuses"]:
+            raise MachineryError("exported jobs of one case disagree on refusal: %r" % (c,))
+        if r["refuses"]:
+            continue
+        if g["acc"] is None:
+            g["acc"] = [[dict(fed=e["fed"], len=e["len"], batches=[]) for e in rk] for rk in r["ranks"]]
+        for rk, grk in zip(r["ranks"], g["acc"]):
+            for e, ge in zip(rk, grk):
+                if e["fed"] != ge["fed"] or e["len"] != ge["len"]:
+                    raise MachineryError("a sequential job's shard / length is not determined: %r" % (c,))
+                if e["batches"] not in ge["batches"]:
+                    ge["batches"].append(e["batches"])
+    return out
+
+
+def dist_job_of_case(c, loader, root):
+    return dict(N=c["N"], W=c["W"], kind=c["kind"], cls=c["cls"], loader=loader, lmode=c["lmode"],
+                dropLast=c["dropLast"], bsz=c["bsz"], nbreq=c["nbreq"], dyn=c["dyn"], lens=list(c["lens"]),
+                seed=0, root=root, epochs=2, twin=False, sched="ranks", sched_seed=0)
+
+
+def random_dist_job(rng, root, quick):
+    """a seeded SHUFFLED job, mostly with a world size that does not divide the number of utterances"""
+    W = rng.choice([2, 2, 3, 3, 4])
+    N = rng.randint(1, 7 if quick else 10)
+    if N % W == 0 and rng.random() < 0.7:
+        N += 1
+    which = rng.choice(["spect", "spect", "lang", "lang", "window"])
+    nbreq = rng.choice([1, 1, 2, 3])
+    job = dict(N=N, W=W, kind="random", cls="spect", loader=which, lmode=rng.choice(["uneven", "uneven", "drop", "ignore", "raise"]),
+               dropLast=rng.random() < 0.25, bsz=rng.randint(1, 3), nbreq=nbreq, dyn=False,
+               lens=[rng.randint(1, 3) for _ in range(N)], seed=rng.choice([0, 1, 2 ** 31 - 1, rng.randrange(1, 100000)]),
+               epochs=2, twin=rng.random() < 0.4, sched=rng.choice(["ranks", "mix"]), sched_seed=rng.randrange(1 << 20),
+               root=root)
+    if which == "window":
+        job.update(cls="window", lmode="ignore", nbreq=1)
+    return job
+
+
+def compare_dist(ctx, g, job, out):
+    """one sequential job of the real loaders against the specification's exported job; only C14's clauses are judged
+    (the constructor's refusal and the rank's share of the epoch are C13's / the extra check X03's)"""
+    c = g["c"]
+    site = DL.SITE[job["loader"]]
+    case = dict(type="dist", job=dist_strip(job), spec=dict(c=c, refuses=g["refuses"], acc=g["acc"]))
+
+    def viol(kind, detail):
+        ctx.violation(dict(site=site, kind=kind, context="distributed", mode=c["mode"]),
+                      "%s: %s" % (dist_describe(job), detail), case)
+
+    if out["failed"]:
+        viol("exception", out["failed"])
+        return
+    raised = sorted(int(r) for r in out["raised"])
+    if g["refuses"] or raised:
+        if raised != (list(range(c["W"])) if g["refuses"] else []):
+            ctx.count("informational_dist_constructor_refusal_differs_from_specification")
+        return
+    if not (out["maps"] is not None and list(out["maps"][0]) == c["i2b"] and list(out["maps"][1]) == c["size"]):
+        ctx.count("informational_bucket_assignment_differs_from_Boundaries")
+        return
+    by = dict(((r["rank"], r["epoch"]), r) for r in out["recs"])
+    for r in range(c["W"]):
+        for e in range(2):
+            want = g["acc"][r][e]
+            got = by.get((r, e))
+            if got is None or len(by) != len(out["recs"]):
+                viol("epoch-counter", "rank %d: epochs reported %r, expected 0 and 1" % (
+                    r, [x["epoch"] for x in out["recs"] if x["rank"] == r]))
+                return
+            if got["fed"] != want["fed"]:
+                ctx.count("informational_dist_share_of_the_rank_differs_from_specification")
+                continue
+            if got["batches"] not in want["batches"]:
+                nfed, ngot = len(got["fed"]), sum(len(b) for b in got["batches"])
+                viol("batches" if ngot == sum(len(b) for b in want["batches"][0]) else "index-lost-or-duplicated",
+                     "rank %d epoch %d: the rank's sampler produced %r (%d indices), the loader delivered the batches %r; "
+                     "the specification accepts %r" % (r, e, got["fed"], nfed, got["batches"], want["batches"][:4]))
+            if got["len"] != want["len"]:
+                viol("len", "rank %d: len(loader)=%d before epoch %d, the rank then delivered %d batches; the specification "
+                     "says %d (the rank's own share is %d utterances)" % (
+                         r, got["len"], e, len(got["batches"]), want["len"], len(want["fed"])))
+
+
+DIST_INV_KIND = {"LenIsBatchesYielded": "len", "LenAgrees": "len", "LenIsBatchingLen": "len",
+                 "NothingLostPerRank": "index-lost-or-duplicated", "BatchesOfOneBucketInOrder": "batch-content-or-size",
+                 "BatchesWellFormed": "batch-content-or-size"}
+
+
+def classify_dist(tr, v):
+    """label a rejected recorded job; None: rejected for a clause that is not C14's (share of the rank, refusal, epoch
+    order shared by the ranks ...: C13 / X03)"""
+    why = v["why"]
+    if why.startswith("invariant"):
+        return DIST_INV_KIND.get(why.split()[1])
+    ev = v.get("event") or {}
+    if ev.get("op") == "yield":
+        return "batch-content-or-size"
+    if ev.get("op") == "finish":
+        nb = 0
+        for e in reversed(tr["events"][:v["matched"]]):
+            if e["rank"] != ev["rank"]:
+                continue
+            if e["op"] == "begin":
+                break
+            nb += e["op"] == "yield"
+        return "len" if ev.get("a") != nb else "incomplete-batch-withheld"
+    return None
+
+
+def validate_dist(ctx, traces, name):
+    return _tracecheck.validate(ctx, name, B.DISTTRACE_MOD, B.DISTTRACE_CFG, traces, chunk=400, timeout=3000)
+
+
+def judge_dist(ctx, traces, meta, verdicts):
+    for tr in traces:
+        v = verdicts[tr["tid"]]
+        if v is None:
+            continue
+        job, case = meta[tr["tid"]]
+        kind = classify_dist(tr, v)
+        if kind is None:
+            ctx.count("informational_dist_job_rejected_for_a_clause_outside_C14")
+            continue
+        ctx.violation(dict(site=DL.SITE[job["loader"]], kind=kind, context="distributed", mode=dist_eff_mode(job)),
+                      "%s: TLC rejects the recorded job at event %d %r (%s); preceding events %r" % (
+                          dist_describe(job), v["matched"], v.get("event"), v["why"],
+                          [(e["op"], e["rank"], e["a"], e["items"]) for e in tr["events"][max(0, v["matched"] - 8):v["matched"]]]),
+                      case)
+    ctx.traces += len(traces)
+
+
+def start_dist(ctx, recs):
+    """spec -> code on the exported sequential jobs; the seeded shuffled jobs are handed to TLC in a thread (joined by
+    finish_dist).  Called before the parent process has done any tensor work (par.pmap forks)."""
+    rng = random.Random(ctx.seed * 7919 + 1403)
+    # vacuity: the universe must hold jobs whose ranks report DIFFERENT lengths (uneven shares) - the length of a rank is
+    # not "N / W cut into batches"
+    uneven = [r for r in recs["distinfo"] if not r["sameLen"] and not r["refuses"]]
+    if not any(r["mode"] == "uneven" and r["nbreq"] == 1 for r in uneven):
+        raise MachineryError("BatchingDist: no exported job in which the ranks report different lengths")
+    ctx.extra["dist_spec_jobs_with_different_lengths_per_rank"] = len(uneven)
+    cases = group_dist_cases(recs["job"])
+    root = ctx.subdir("dist")
+    items = []
+    for n, k in enumerate(sorted(cases)):
+        g = cases[k]
+        c = g["c"]
+        real_split = c["W"] > 1 and c["N"] % c["W"] != 0
+        if ctx.quick and not real_split and rng.random() < 0.8:
+            continue  # quick: every job whose world size does not divide the data, a seeded fifth of the others
+        for loader in (("window",) if c["cls"] == "window" else
+                       (("spect", "lang") if not ctx.quick else (("spect", "lang")[n % 2],))):
+            items.append((g, dist_job_of_case(c, loader, root)))
+    rjobs = [random_dist_job(rng, root, ctx.quick) for _ in range(120 if ctx.quick else 1500)]
+    outs = par.pmap(DL.run_job, [it[1] for it in items] + rjobs)
+    for (g, job), out in zip(items, outs):
+        compare_dist(ctx, g, job, out)
+        c = g["c"]
+        ctx.case(key=("dist", job["loader"], json.dumps(c, sort_keys=True)),
+                 nontrivial=c["W"] > 1 and c["N"] >= c["W"] and c["mode"] != "ignore",
+                 sample=dict(distributed_job=dist_describe(job), refuses=g["refuses"],
+                             ranks=[[dict(pulled=e["fed"], batches=e["batches"][0], len=e["len"]) for e in rk]
+                                    for rk in (g["acc"] or [])])
+                 if (c["N"], c["W"], c["lmode"], c["bsz"], c["nbreq"], c["dropLast"], c["cls"]) == (
+                     3, 2, "uneven", 1, 1, False, "spect") else None)
+        ctx.traces += 1
+    ctx.count("dist_sequential_jobs_replayed", len(items))
+    traces, meta = [], {}
+    nq = 0
+    for n, (job, out) in enumerate(zip(rjobs, outs[len(items):])):
+        case = dict(type="distjob", job=dist_strip(job))
+        ctx.case(key=("distjob", repr(sorted(dist_strip(job).items()))),
+                 nontrivial=job["W"] > 1 and job["N"] >= job["W"] and dist_eff_mode(job) != "ignore")
+        if out["failed"]:
+            ctx.violation(dict(site=DL.SITE[job["loader"]], kind="exception", context="distributed", mode=dist_eff_mode(job)),
+                          "%s: %s" % (dist_describe(job), out["failed"]), case)
+            continue
+        nq += out["fd_calls"]
+        tid = "dist-%d" % n
+        traces.append(DL.header(tid, job, out["maps"], out["events"]))
+        meta[tid] = (job, case)
+    if not nq:
+        raise MachineryError("FakeDist was never queried: the double is not bound")
+    ctx.count("dist_shuffled_jobs_run", len(rjobs))
+    box = {}
+
+    def work():
+        try:
+            box["verdicts"] = validate_dist(ctx, traces, "BatchingDistTrace/shuffled")
+        except BaseException as ex:  # re-raised by finish_dist
+            box["err"] = ex
+
+    th = threading.Thread(target=work)
+    th.start()
+    return th, box, traces, meta
+
+
+def finish_dist(ctx, handle):
+    th, box, traces, meta = handle
+    th.join()
+    if "err" in box:
+        raise box["err"]
+    judge_dist(ctx, traces, meta, box["verdicts"])
+    return traces
+
+
 # ----------------------------------------------------------------------------- direct collation
 def run_collate_case(c, rng, tid):
     """one exported collate case through the real collation function"""
@@ -514,7 +768,10 @@ def run_collate_case(c, rng, tid):
             tup = [B.ref_tensor(u, it["R"], two_d)]
         elif kind == "window":
             feat = B.feat_tensor(u, it["T"])
-            win = torch.stack([D.extract_window(feat, t, c["left"], c["right"], c["rev"]) for t in range(it["T"])])
+            if it["T"]:
+                win = torch.stack([D.extract_window(feat, t, c["left"], c["right"], c["rev"]) for t in range(it["T"])])
+            else:  # no frames, no windows: what ContextWindowDataSet yields for a (0, F) feature file
+                win = feat.new_zeros((0, 1 + c["left"] + c["right"], B.NFILT))
             tup = [win, B.ali_tensor(u, it["T"]) if it["A"] else None]
         else:
             tup = [B.feat_tensor(u, it["T"]), B.ali_tensor(u, it["T"]) if it["A"] else None,
@@ -528,7 +785,7 @@ def run_collate_case(c, rng, tid):
     try:
         if kind == "spect":
             res = D.spect_seq_to_batch(seq, bf, c["sort"], True, has_uttids)
-            out = B.project_spect(res, bf, True, has_uttids, names)
+            out = B.project_spect(res, bf, True, has_uttids, names, hint_ids=[it["id"] for it in items])
         elif kind == "lang":
             res = D.lang_seq_to_batch(seq, bf, c["sort"], has_uttids)
             out = B.project_lang(res, bf, has_uttids, names, hint_ids=[it["id"] for it in items])
@@ -674,19 +931,46 @@ def run(ctx):
                 "whose second loader serves other lengths than the first read) replayed on one real path; "
                 "non-trivial = more than one batch "
                 "or a padded / sorted / incomplete batch (histories: the second loader's data differs and more "
-                "than one length class is requested), distinct by the full configuration")
+                "than one length class is requested), distinct by the full configuration; utterances WITHOUT frames / "
+                "tokens: exported batches holding at least one (quick: a seeded sample) through the three collation "
+                "functions, every exported length vector holding a 0 as a real directory under ContextWindowDataLoader "
+                "and Spect / LangDataLoader; under an INITIALISED PROCESS GROUP (FakeDist double, one loader object per "
+                "rank): every exported sequential job (quick: all whose world size does not divide the data, a seeded "
+                "fifth of the rest) replayed on the real loaders - len(loader) before each epoch and the batches of every "
+                "rank against the specification's - plus seeded shuffled jobs validated by BatchingDistTrace")
     ctx.assumptions += [
-        "utterance lengths >= 1 (a zero-length utterance makes the dynamic batch size undefined: x * 0 <= Y * B)",
+        "utterances without frames / tokens only with size_batch_by_length=False (the dynamic size of a class of empty "
+        "utterances is undefined: x * 0 <= Y * B has no greatest x; the code divides by the class bound) and with "
+        "utterance ids returned (such an utterance shows in a batch through its id alone)",
         "num_workers = 0, CPU; feature values are small integers (exact in float32)",
         "loaders with sort_batch=True: the rows of a batch are presented to the bucket machine in feed order "
         "(the batch sampler's own order is not observable after sorting; it is checked on BucketBatchSampler "
         "directly and on unsorted loaders)",
-        "non-distributed (C13 covers the split across ranks)",
+        "distributed jobs: one process simulates all ranks (torch.distributed.is_available / is_initialized / get_rank / "
+        "get_world_size replaced by the FakeDist double while a rank's loader is constructed); every rank gets the same "
+        "directory, parameters and seed; only C14's clauses are judged there (length = batches delivered, nothing the "
+        "rank's sampler produced is lost, batches well formed) - the constructor's refusal and the rank's share of the "
+        "epoch are C13's; len(loader) is asked before every epoch and compared when fresh or when it cannot change "
+        "between epochs (a cached length gone stale - shuffled + several length buckets + a real split - is documented "
+        "in DistLoader.tla as not promised)",
         "histories: the files of a rendition are regenerated only between loaders, never while a loader is "
         "running an epoch",
     ]
+    import time
+
+    phases = ctx.extra.setdefault("phase_wall_s", {})
+    t0 = [time.time()]
+
+    def lap(name):
+        phases[name] = round(time.time() - t0[0], 1)
+        t0[0] = time.time()
+
     recs = B.run_design(ctx)
+    lap("design checks (TLC)")
     rng = ctx.rng
+    # --- the loaders of the ranks of a distributed job (before any tensor work in this process: forks)
+    dist = start_dist(ctx, recs)
+    lap("distributed jobs on the real loaders")
     # --- window table (spec -> code)
     window_table(ctx, recs["window"])
     # --- BucketBatchSampler (code -> spec)
@@ -712,10 +996,20 @@ def run(ctx):
         traces.append(tr)
         meta[tid] = (None, "BucketBatchSampler", "case %r" % (c,), case)
     validate_bucket(ctx, traces, meta, "BatchingTrace/BucketBatchSampler")
+    lap("window table, BucketBatchSampler")
     # --- direct collation (code -> spec)
     ccases = sorted(recs["collate"], key=lambda r: repr(r))
+    zcases = [c for c in ccases if any(it["T"] == 0 for it in c["items"])]  # (BatchingCollate_zero_*.cfg)
+    ccases = [c for c in ccases if not any(it["T"] == 0 for it in c["items"])]
     if ctx.quick:
         ccases = rng.sample(ccases, 2000)
+        # batches holding utterances without frames: every one that mixes them with others among <= 2 utterances, a seeded
+        # sample of the rest
+        rz = random.Random(ctx.seed * 7919 + 1402)
+        small = [c for c in zcases if len(c["items"]) <= 2 and any(it["T"] > 0 for it in c["items"])]
+        rest = [c for c in zcases if not (len(c["items"]) <= 2 and any(it["T"] > 0 for it in c["items"]))]
+        zcases = small + rz.sample(rest, min(len(rest), 700))
+    ccases = ccases + zcases
     ctr, cmeta = [], {}
     for i, c in enumerate(ccases):
         tid = "col-%d" % i
@@ -723,13 +1017,15 @@ def run(ctx):
         Ts = [it["T"] for it in c["items"]]
         ctx.case(key=("collate", c["kind"], c["items"], c["sort"], c["left"], c["right"], c["rev"]),
                  nontrivial=len(c["items"]) > 1 and (len(set(Ts)) > 1 or c["kind"] == "lang"),
-                 sample=dict(collate_case=c, out=tr["out"]) if tr and i == 77 else None)
+                 sample=dict(collate_case=c, out=tr["out"]) if tr and (i == 77 or (
+                     c["kind"] == "window" and Ts == [2, 0, 1] and call["has_uttids"])) else None)
         if failed:
             ctx.violation(dict(site=SITE_COLLATE[c["kind"]], kind="exception"), "%r raised %s" % (c, failed), call)
             continue
         ctr.append(tr)
         cmeta[tid] = (None, SITE_COLLATE[c["kind"]], "direct call %r" % (call,), call)
     validate_collate(ctx, ctr, cmeta, "BatchingCollateTrace/functions")
+    lap("collation functions")
     # --- loaders on real directories
     pool = DirPool(ctx)
     spec = {}
@@ -748,6 +1044,8 @@ def run(ctx):
     li = 0
     for lens in sorted(by_lens):
         keys = sorted(by_lens[lens])
+        if 0 in lens:
+            continue  # (below)
         if ctx.quick and len(lens) >= 5 and rng.random() < 0.5:
             continue  # quick: every length vector up to 4 utterances, a seeded half of the longest ones
         if lens:
@@ -773,19 +1071,73 @@ def run(ctx):
             run_loader(ctx, cfg, pool, spec.get(k), "ld-%d" % li, out)
             ctx.case(key=("loader", describe(cfg), cfg["left"], cfg["right"], cfg["rev"]), nontrivial=len(lens) > 1)
             li += 1
+    lap("loaders on real directories")
+    # --- loaders over directories holding utterances WITHOUT frames / tokens (Batching_lengths0_*.cfg): a (0, F) feature
+    # file with an empty alignment, an empty transcript.  Always the ContextWindowDataLoader, and the Spect / Lang loaders
+    # (quick: one of the two).  Utterance ids are returned: such an utterance shows in a batch through its id alone.
+    rz = random.Random(ctx.seed * 7919 + 1401)
+    nz = 0
+    for lens in sorted(l for l in by_lens if 0 in l):
+        keys = sorted(by_lens[lens])
+        for kind in (("window", ("spect", "lang")[nz % 2]) if ctx.quick else ("window", "spect", "lang")):
+            cfg = random_flags(rz, kind)
+            cfg["suttids"] = False
+            if kind == "window":
+                cfg.update(lens=list(lens), bsz=rz.randint(1, 3), drop=rz.random() < 0.3)
+                k = (lens, 1, cfg["bsz"], False, cfg["drop"])
+            else:
+                k = keys[rz.randrange(len(keys))]
+                cfg.update(lens=list(lens), nbreq=k[1], bsz=k[2], dyn=k[3], drop=k[4])
+            run_loader(ctx, cfg, pool, spec.get(k), "ld-%d" % li, out)
+            ctx.case(key=("loader", describe(cfg), cfg["left"], cfg["right"], cfg["rev"]),
+                     nontrivial=len(lens) > cfg["bsz"] or len(set(lens)) > 1,
+                     sample=dict(loader=describe(cfg), predicted_len=spec[k]["plen"] if k in spec else None)
+                     if tuple(lens) == (1, 0, 2) and kind == "window" else None)
+            li += 1
+            nz += 1
+    ctx.count("loader_configurations_over_data_with_empty_utterances", nz)
     ctx.count("loader_configurations", li)
     ctx.count("loader_collated_batches", len(out["collate"]))
+    lap("loaders over data with empty utterances")
     validate_bucket(ctx, out["bucket"], out["meta"], "BatchingTrace/loaders")
     validate_collate(ctx, out["collate"], out["meta"], "BatchingCollateTrace/loaders")
+    lap("TLC validation of the loader runs")
     # --- histories of loaders over one directory (spec -> code replay, validated code -> spec)
     htraces = run_histories(ctx, recs["hist"], rng)
-    selftest(ctx, traces, ctr, htraces)
+    lap("histories")
+    dtraces = finish_dist(ctx, dist)
+    lap("waiting for the validation of the shuffled distributed jobs")
+    selftest(ctx, traces, ctr, htraces, dtraces)
+    lap("self-test")
 
 
-def selftest(ctx, btraces, ctraces, htraces):
+def selftest(ctx, btraces, ctraces, htraces, dtraces):
     """Binding self-test: corrupted copies of accepted traces must be rejected."""
     import copy
     import shutil
+
+    # an utterance without frames that vanishes from the per-utterance parts of a window batch (the concatenated
+    # windows are the same with or without it)
+    ze = copy.deepcopy(next(t for t in ctraces if t["kind"] == "window" and len(t["items"]) >= 2
+                           and 0 in t["out"]["wsz"] and any(x > 0 for x in t["out"]["wsz"])
+                           and len(t["out"]["ids"]) == len(t["items"])))
+    j = ze["out"]["wsz"].index(0)
+    del ze["out"]["wsz"][j], ze["out"]["ids"][j]
+    ze["tid"] = "self-empty-utterance-dropped"
+    # a rank of a distributed job that reports the length of an equal share although it got one utterance more
+    zf = None
+    for t in dtraces:
+        if t["W"] < 2 or t["lmode"] != "uneven" or t["dropLast"] or t["cls"] != "spect" or t["N"] % t["W"] == 0 or t["nbreq"] != 1:
+            continue
+        fin = [x for x in t["events"] if x["op"] == "finish" and x["rank"] == 0 and x["a"] >= 1]
+        if fin:
+            zf = copy.deepcopy(t)
+            x = next(x for x in zf["events"] if x["op"] == "finish" and x["rank"] == 0)
+            x["a"] -= 1
+            zf["tid"] = "self-distributed-len-one-short"
+            break
+    if zf is None:
+        raise MachineryError("self-test: no distributed job to corrupt")
 
     a = copy.deepcopy(next(t for t in btraces if sum(1 for e in t["events"] if e["op"] == "yield") >= 2
                            and not t["drop"]))
@@ -823,13 +1175,18 @@ def selftest(ctx, btraces, ctraces, htraces):
         raise MachineryError("self-test: no history to corrupt")
     sub = type(ctx)(ctx.prop, ctx.tier, ctx.seed, ctx.level)
     try:
-        v1 = _tracecheck.validate(sub, "BatchingTrace/selftest", B.TRACE_MOD, B.TRACE_CFG, [a, b])
-        v2 = _tracecheck.validate(sub, "BatchingCollateTrace/selftest", B.CTRACE_MOD, B.CTRACE_CFG, [c])
-        v3 = _tracecheck.validate(sub, "BatchingDirTrace/selftest", B.DTRACE_MOD, B.DTRACE_CFG, [d])
+        from concurrent.futures import ThreadPoolExecutor
+
+        todo = [("BatchingTrace/selftest", B.TRACE_MOD, B.TRACE_CFG, [a, b]),
+                ("BatchingCollateTrace/selftest", B.CTRACE_MOD, B.CTRACE_CFG, [c, ze]),
+                ("BatchingDirTrace/selftest", B.DTRACE_MOD, B.DTRACE_CFG, [d]),
+                ("BatchingDistTrace/selftest", B.DISTTRACE_MOD, B.DISTTRACE_CFG, [zf])]
+        v1 = {}
+        with ThreadPoolExecutor(max_workers=len(todo)) as tp:  # (one small JVM each)
+            for v in tp.map(lambda q: _tracecheck.validate(sub, *q), todo):
+                v1.update(v)
     finally:
         shutil.rmtree(sub.workdir, ignore_errors=True)
-    v1.update(v2)
-    v1.update(v3)
     missed = [t for t, x in v1.items() if x is None]
     if missed:
         raise MachineryError("self-test: corrupted traces were accepted: %r" % missed)
@@ -837,8 +1194,6 @@ def selftest(ctx, btraces, ctraces, htraces):
 
 
 def replay(ctx, case):
-    import random
-
     rng = random.Random(0)
     t = case.get("type")
     if t == "window":
@@ -885,6 +1240,17 @@ def replay(ctx, case):
         validate_history(ctx, [tr], {"replay": (case, notes, case["kind"])}, "BatchingDirTrace/replay")
         validate_collate(ctx, ctr, dict((c["tid"], (None, HSITE[case["kind"]], "replay", case)) for c in ctr),
                          "BatchingCollateTrace/replay")
+    elif t in ("dist", "distjob"):
+        job = dict(case["job"], root=ctx.subdir("dist_replay"))
+        out = DL.run_job(job)
+        if t == "dist":
+            compare_dist(ctx, case["spec"], job, out)
+        elif out["failed"]:
+            ctx.violation(dict(site=DL.SITE[job["loader"]], kind="exception", context="distributed", mode=dist_eff_mode(job)),
+                          "%s: %s" % (dist_describe(job), out["failed"]), case)
+        if not out["failed"]:
+            tr = DL.header("replay", job, out["maps"], out["events"])
+            judge_dist(ctx, [tr], {"replay": (job, case)}, validate_dist(ctx, [tr], "BatchingDistTrace/replay"))
     else:
         raise MachineryError("unknown replay case type %r" % t)
     print("replay %s: %d violation(s)" % (t, len(ctx.violations)))
